@@ -9,7 +9,7 @@ publish / finished / retract / left, stop / scan / resume of the world, ...).  E
 code is compiled natively before arming.  A delayed request from a watchdog thread covers code that passes no gates.
 Oracle: Engine::run returns an error within B further instruction dispatches (hard wall-clock limit per case = `hang`), and after
 resume() a probe program and the shape's bounded variant give their answers and both VM stacks are empty."""
-import sys, json
+import sys, json, os
 from . import common
 
 P = "C17"
@@ -62,9 +62,29 @@ CONFIGS = [("jit-on", None), ("jit-off", {"STEEL_JIT": "false"})]
 GC_SHAPES = ("allocating-boxes", "allocating-vectors")
 
 
-def case_steps(shape, k, timed_ms, gcplan):
+MODDIR = os.path.join(common.VERIF, ".work", "c17mod")
+
+
+def module_file(shape):
+    import re
     name, defs, warm, endless = shape
-    steps = [defs, warm]
+    names = re.findall(r"\(define \(([^ )]+)", defs) + re.findall(r"\(define ([^ (]+) ", defs) + re.findall(r"\(struct ([^ ]+) ", defs)
+    os.makedirs(MODDIR, exist_ok=True)
+    path = os.path.join(MODDIR, name + ".scm")
+    if not os.path.exists(path):
+        with open(path, "w") as fh:
+            fh.write("(provide %s)\n%s\n" % (" ".join(dict.fromkeys(names)), defs))
+    return path
+
+
+def case_steps(shape, k, timed_ms, gcplan, unit="separate"):
+    name, defs, warm, endless = shape
+    if unit == "same-unit":
+        steps = [defs + " " + warm, "'done"]
+    elif unit == "module":
+        steps = ["(require \"%s\")" % module_file(shape), warm]
+    else:
+        steps = [defs, warm]
     if gcplan:
         steps.append({"op": "gcplan", "on": True})
     steps += [{"op": "int_plan", "k": k, "timed_ms": timed_ms}, endless, {"op": "int_report"}]
@@ -78,12 +98,16 @@ def judge(shape, r, gcplan):
     """-> (class, detail) or None"""
     off = 1 if gcplan else 0
     if r["exit"] != "normal":
-        armed = r.get("last_mark") in (777001, "777001")
+        lm = str(r.get("last_mark"))
         if r["exit"] == "timeout":
-            return ("hang", "the evaluation did not stop within %d ms of wall-clock time" % HANG_MS) if armed else ("machinery", "timeout before arming")
+            if lm == "777003":
+                return ("hang", "the evaluation did not stop within %d ms of wall-clock time after the request" % HANG_MS)
+            if lm == "777001":
+                return ("no-gates", "the chosen arrival gate was never reached (code that passes no gates): only the delayed request applies")
+            return ("machinery", "timeout before arming")
         return ("crash", "engine died: %s" % r["exit"])
     st = r["steps"]
-    if st[1]["s"] != "ok" or st[1]["v"][-1] != '(sym "done")':
+    if st[1]["s"] != "ok" or not st[1]["v"] or st[1]["v"][-1] != '(sym "done")':
         return ("machinery", "warm-up run failed: %s" % (st[1].get("m") or st[1].get("v")))
     run = st[3 + off]
     rep = st[4 + off]["v"][0]
@@ -111,7 +135,7 @@ def judge(shape, r, gcplan):
 
 
 def work(item):
-    si, cfgname, env, ks, gcplan = item
+    si, cfgname, env, ks, gcplan, unit = item
     shape = SHAPES[si]
     e = dict(env or {})
     if gcplan:
@@ -119,11 +143,14 @@ def work(item):
     out = []
     hangs = 0
     n = 0
+    nogates = False
     kinds = {}
     for k in ks:
         timed = 0 if k > 0 else 60
-        r = common.run_cases([{"id": 0, "steps": case_steps(shape, k, timed, gcplan)}], env=e or None, batch=1, timeout_ms=HANG_MS)[0]
+        r = common.run_cases([{"id": 0, "steps": case_steps(shape, k, timed, gcplan, unit)}], env=e or None, batch=1, timeout_ms=HANG_MS)[0]
         n += 1
+        if unit == "module" and r["exit"] == "normal" and r["steps"] and r["steps"][0]["s"] != "ok":
+            break  # the shape's definitions cannot live in a module (eval, host functions): variant not applicable
         j = judge(shape, r, gcplan)
         if r["exit"] == "normal":
             try:
@@ -131,13 +158,16 @@ def work(item):
                 kinds[rep["kind"]] = kinds.get(rep["kind"], 0) + 1
             except Exception:
                 pass
+        if j and j[0] == "no-gates":
+            nogates = True
+            break  # larger ordinals cannot be reached either
         if j:
             out.append((k, j[0], j[1]))
             if j[0] in ("hang", "machinery"):
                 hangs += 1
                 if hangs >= 4:
                     break  # every further arrival point of this shape costs the full wall-clock limit: stop, the cap is reported
-    return (si, cfgname, gcplan, n, len(ks), out, kinds)
+    return (si, cfgname, gcplan, n, len(ks), out, kinds, unit)
 
 
 def main(argv=None):
@@ -154,19 +184,27 @@ def main(argv=None):
             # split the arrival points of one shape over several workers, keeping ascending order inside each
             parts = 4 if a.tier == "thorough" else 2
             for p in range(parts):
-                items.append((si, cfgname, env, ks[p::parts] + ([0] if p == 0 else []), False))
+                items.append((si, cfgname, env, ks[p::parts] + ([0] if p == 0 else []), False, "separate"))
             if sh[0] in GC_SHAPES:
                 for p in range(parts):
-                    items.append((si, cfgname, env, ks[p::parts], True))
+                    items.append((si, cfgname, env, ks[p::parts], True, "separate"))
+            # the definitions compiled in the same unit as their first call / in a required module: the delayed request first (code
+            # compiled to a native loop may pass no gates at all), then the first arrival points
+            for unit in ("same-unit", "module"):
+                items.append((si, cfgname, env, [0] + list(range(1, (K // 5 if a.tier == "thorough" else 12) + 1)), False, unit))
+    import shutil
+    shutil.rmtree(MODDIR, ignore_errors=True)
+    for sh in SHAPES:
+        module_file(sh)
     res = common.pmap(work, items)
     total = sum(r[3] for r in res)
     planned = sum(r[4] for r in res)
     kinds = {}
     table = {}
-    for si, cfgname, gcplan, n, m, out, kd in res:
+    for si, cfgname, gcplan, n, m, out, kd, unit in res:
         for kk, c in kd.items():
             kinds[kk] = kinds.get(kk, 0) + c
-        key = "%s/%s%s" % (SHAPES[si][0], cfgname, "/gc-every-allocation" if gcplan else "")
+        key = "%s/%s%s%s" % (SHAPES[si][0], cfgname, "/gc-every-allocation" if gcplan else "", "" if unit == "separate" else "/" + unit)
         table.setdefault(key, []).extend(out)
     for key in sorted(table):
         fails = sorted(table[key])
@@ -176,15 +214,16 @@ def main(argv=None):
         for cls, lst in by_class.items():
             k, detail = lst[0]
             si = [i for i, s in enumerate(SHAPES) if s[0] == key.split("/")[0]][0]
-            gcplan = key.endswith("gc-every-allocation")
+            gcplan = "gc-every-allocation" in key
+            unit = "same-unit" if key.endswith("/same-unit") else ("module" if key.endswith("/module") else "separate")
             env = dict(CONFIGS[0][1] or {}) if "jit-on" in key else dict(CONFIGS[1][1])
             if gcplan:
                 env["STEEL_VERIF_GC"] = "every"
             rep.violation("%s :: %s :: %s" % (key, cls, detail if cls not in ("late",) else detail.split(" after")[0]),
                           {"shape": key, "class": cls, "smallest_arrival_point": k, "arrival_points_failing": [x[0] for x in lst][:50], "detail": detail},
-                          {"case": {"steps": case_steps(SHAPES[si], k, 0 if k else 60, gcplan)}, "env": env or None, "timeout_ms": HANG_MS})
+                          {"case": {"steps": case_steps(SHAPES[si], k, 0 if k else 60, gcplan, unit)}, "env": env or None, "timeout_ms": HANG_MS})
     cov = {"evaluations": total, "distinct_nontrivial": total,
-           "rule": "%d program shapes x {native code on, off} (+ forced collection at every allocation for the allocating shapes) x every arrival point k = 1..%d of the request "
+           "rule": "%d program shapes x {native code on, off} (+ forced collection at every allocation for the allocating shapes; + definitions compiled in the same unit as the first call / in a required module, delayed request and first arrival points) x every arrival point k = 1..%d of the request "
                    "(k-th gate of the engine thread after arming, any gate kind) + one delayed request from a watchdog thread; a shape whose arrival points hang is cut off "
                    "after 4 hangs (planned %d cases, run %d)" % (len(SHAPES), K, planned, total),
            "samples": [SHAPES[0][3], SHAPES[12][1][:120], SHAPES[21][1][:120]], "exhaustive": total == planned, "arrival_gate_kinds": kinds, "bound_dispatches": B, "hang_limit_ms": HANG_MS}
